@@ -25,6 +25,10 @@ STRUCT_CHANGING = {"insert", "resize", "prune", "makeCompressed", "reserve", "se
                    "setIdentity", "uncompress", "swap", "insertBack", "startVec", "finalize", "data", "resizeNonZeros"}
 
 
+RAW_ACCESS = {"valuePtr", "innerIndexPtr", "outerIndexPtr", "innerNonZeroPtr", "coeffs", "data", "innerVector", "col", "row", "block"}
+READ_ONLY = {"isCompressed", "rows", "cols", "nonZeros", "outerSize", "innerSize", "coeff", "size"}
+
+
 class PEError(Exception):
     pass
 
@@ -264,6 +268,20 @@ def check_o1_o4(rep, idx):
                     locs[x.get("name")] = A.to_expr(A.kids(x)[-1])
         has_i0 = any(p.get("name") == "i0" for p in A.params(d.node))
         n_bad_struct = 0
+        parents = {}
+        for p_ in A.walk(b):
+            for c_ in A.kids(p_):
+                parents[id(c_)] = p_
+        # whole-matrix assignment replaces the structure
+        for x in A.walk(b):
+            if x.get("kind") in ("BinaryOperator", "CXXOperatorCallExpr"):
+                e = A.to_expr(x)
+                if e[0] == "op" and e[1] == "=" and e[2][0] == "ref" and e[2][1] == "sp":
+                    f, l = A.loc(x)
+                    n_bad_struct += 1
+                    rep.violation(Finding("O4", d.qname, "assign", "sparse writer assigns the whole host matrix (`%s`): its sparsity structure is replaced by that "
+                                          "of the right-hand side (entries that happen to be zero for this tangent vector disappear, other stored entries are lost)"
+                                          % A.show(e)[:70], f, l))
         for x in A.walk(b):
             if x.get("kind") not in ("CallExpr", "CXXMemberCallExpr"):
                 continue
@@ -289,6 +307,19 @@ def check_o1_o4(rep, idx):
                 elif m in STRUCT_CHANGING or (m == "setZero"):
                     n_bad_struct += 1
                     rep.violation(Finding("O4", d.qname, m, "sparse writer calls sp.%s(), which changes the sparsity structure / compression of the host matrix" % m, f, l))
+                elif m in RAW_ACCESS:
+                    # raw storage access: only `sp.coeffs().setZero()` of ad_sparse (zeroing the values, structure kept) is sanctioned
+                    par = parents.get(id(x))
+                    sanctioned = (m == "coeffs" and par is not None and (par.get("member") or par.get("name")) == "setZero"
+                                  and d.qname.split("::")[-1] == "ad_sparse")
+                    if not sanctioned:
+                        n_bad_struct += 1
+                        rep.violation(Finding("O1", d.qname, "raw:" + m,
+                                              "sparse writer reaches the host's storage through sp.%s() instead of coeffRef(row, col): entries are no longer "
+                                              "addressed by (block offset + row, block offset + column), so values can land in other stored entries of the "
+                                              "host's columns" % m, f, l))
+                elif m not in READ_ONLY:
+                    rep.broke("O4: unclassified member sp.%s() used in %s (%s:%s)" % (m, d.qname, fe.rel(f), l))
             elif e[0] == "call" and isinstance(e[1], str) and re.search(r"(^|::)(d2?r_exp(inv)?_sparse)\b", e[1] or ""):
                 args = e[2]
                 if len(args) >= 3:
@@ -408,11 +439,34 @@ def check_generators(rep, idx_all):
             if not ok:
                 rep.violation(Finding("O5g", "generators_sparse", "init", "generators are not built as ad<G>(Unit(i)).sparseView()", d.file, d.line))
         if d.kind in A.FUNCS and d.qname.split("::")[-1] == "ad_sparse" and d.pattern and A.body(d.node) is not None:
-            t = re.sub(r"\s", "", A.text(A.body(d.node)))
-            ok = "sp.coeffs().setZero();" in t and "sp+=a(k)*generators_sparse<G>[k];" in t and "k<Dof<G>" in t
-            rep.instance("O5g", "ad_sparse", "sum", ok=ok, sample={"file": fe.rel(d.file), "line": d.line})
+            b = A.body(d.node)
+            zeroed = False
+            summed = False
+            for x in A.walk(b):
+                if x.get("kind") in ("CallExpr", "CXXMemberCallExpr"):
+                    e = A.to_expr(x)
+                    if e[0] == "mcall" and e[2] == "setZero" and e[1][0] == "mcall" and e[1][2] == "coeffs" and e[1][1][0] == "ref" and e[1][1][1] == "sp":
+                        zeroed = True
+                if x.get("kind") == "ForStmt":
+                    ks = A.kids(x)
+                    cond = A.to_expr(ks[2])
+                    var = next((v.get("name") for v in A.kids(ks[0]) if v.get("kind") == "VarDecl"), None) if ks[0].get("kind") == "DeclStmt" else None
+                    full = cond[0] == "op" and cond[1] == "<" and cond[2][0] == "ref" and cond[2][1] == var and re.sub(r"\s", "", A.show(cond[3])) in ("Dof", "Dof<G>")
+                    for y in A.walk(ks[4]):
+                        if y.get("kind") in ("CompoundAssignOperator", "CXXOperatorCallExpr", "BinaryOperator"):
+                            e = A.to_expr(y)
+                            if e[0] == "op" and e[1] == "+=" and e[2][0] == "ref" and e[2][1] == "sp" and e[3][0] == "op" and e[3][1] == "*":
+                                fs = [e[3][2], e[3][3]]
+                                coef = [f_ for f_ in fs if f_[0] in ("call", "sub") and (f_[1] == "a" or (isinstance(f_[1], tuple) and f_[1][0] == "ref" and f_[1][1] == "a"))]
+                                gen = [f_ for f_ in fs if f_[0] == "sub" and "generators_sparse" in A.show(f_[1])]
+                                idx_ok = all(A.show(f_[2][0]) == var for f_ in coef + gen) if (coef and gen) else False
+                                if coef and gen and idx_ok and full:
+                                    summed = True
+            ok = zeroed and summed
+            rep.instance("O5g", "ad_sparse", "sum", ok=ok, sample={"file": fe.rel(d.file), "line": d.line, "zeroes_values": zeroed, "sums_generators": summed})
             if not ok:
-                rep.violation(Finding("O5g", "ad_sparse", "sum", "ad_sparse is not zero-then-sum_k a(k)*generators_sparse<G>[k] over k < Dof", d.file, d.line))
+                rep.violation(Finding("O5g", "ad_sparse", "sum", "ad_sparse does not zero the stored values and then add a(k)*generators_sparse<G>[k] for every k < Dof "
+                                      "(zeroed=%s, generator sum=%s)" % (zeroed, summed), d.file, d.line))
 
 
 def check(rep, tier, replay=None):
